@@ -49,11 +49,13 @@ impl Eq for CloseChannelEndResult {}
 
 // the messages the handlers send; VersionedMessage::new / with_version take `impl Into<Message>` in the real code
 // protocol minor version that introduced each message kind sent by these handlers (0 = base protocol 1.14)
-impl IntoMessage for ItemReceived { open spec fn min_minor() -> u32 { 0 } }
-impl IntoMessage for AddChannelCapacity { open spec fn min_minor() -> u32 { 0 } }
-impl IntoMessage for ChannelEndClosed { open spec fn min_minor() -> u32 { 0 } }
-impl IntoMessage for CloseChannelEndReply { open spec fn min_minor() -> u32 { 0 } }
-impl IntoMessage for CreateChannelReply { open spec fn min_minor() -> u32 { 0 } }
+// ROUTING (C05): an item goes only to the connection that holds the receiver end of that channel; a capacity announcement only
+// to the connection that holds the sender end
+impl IntoMessage for ItemReceived { open spec fn min_minor() -> u32 { 0 } closed spec fn allowed_for(&self, receiver: &ConnectionState) -> bool { receiver.receivers@.contains(self.cookie) } }
+impl IntoMessage for AddChannelCapacity { open spec fn min_minor() -> u32 { 0 } closed spec fn allowed_for(&self, receiver: &ConnectionState) -> bool { receiver.senders@.contains(self.cookie) } }
+impl IntoMessage for ChannelEndClosed { open spec fn min_minor() -> u32 { 0 } open spec fn allowed_for(&self, receiver: &ConnectionState) -> bool { true } }
+impl IntoMessage for CloseChannelEndReply { open spec fn min_minor() -> u32 { 0 } open spec fn allowed_for(&self, receiver: &ConnectionState) -> bool { true } }
+impl IntoMessage for CreateChannelReply { open spec fn min_minor() -> u32 { 0 } open spec fn allowed_for(&self, receiver: &ConnectionState) -> bool { true } }
 
 // random UUIDv4 cookie: freshness w.r.t. live channels is ASSUMED at the creation site (see create_channel)
 impl ChannelCookie {
@@ -93,7 +95,7 @@ impl ConnectionState {
     // Precondition: the message kind exists in the connection's negotiated protocol version (see handler_prelude.rs).
     #[verifier::external_body]
     pub(crate) fn send(&self, msg: VersionedMessage) -> (r: Result<(), ()>)
-        requires self.version.allows(msg.min_minor())
+        requires self.version.allows(msg.min_minor()), msg.allowed_for(self)
     { unimplemented!() }
 }
 
